@@ -1,6 +1,7 @@
 #!/bin/bash
 # Build aws-c-common from /repo's current working tree for one flavour, then link the dsim worker.
-#   build.sh A|B|C      (A: gcc ASan+UBSan DEBUG_BUILD; B: clang tsan-instrumented + shim, NDEBUG; C: clang coverage)
+#   build.sh A|B|C|R    (A: gcc ASan+UBSan DEBUG_BUILD; B: clang tsan-instrumented + shim, NDEBUG; C: clang coverage;
+#                        R: gcc -O2 -DNDEBUG as shipped, sync-level decision points only)
 # Output: /verif/build/<flavour>/dsim
 set -e
 FL=${1:-A}
@@ -17,8 +18,14 @@ case $FL in
      HFLAGS="-O1 -g -fno-omit-frame-pointer -fsanitize=address,undefined -fno-sanitize-recover=undefined"
      LDFLAGS="-fsanitize=address,undefined" ;;
   B) CC=clang; CXX=clang++; BT=Release
-     LIBFLAGS="-O1 -g -fno-omit-frame-pointer -DNDEBUG -fsanitize=thread -DAWS_C_COMMON_VERIF_SIM"
+     LIBFLAGS="-O2 -g -fno-omit-frame-pointer -DNDEBUG -fsanitize=thread -DAWS_C_COMMON_VERIF_SIM"
      HFLAGS="-O1 -g -fno-omit-frame-pointer -DDSIM_FLAVOUR_B=1"
+     LDFLAGS="" ;;
+  R) CC=gcc; CXX=g++; BT=Release
+     # the shipped optimisation level and NDEBUG semantics, no sanitizer, no access instrumentation: what the optimizer
+     # does to the code (dead-store elimination before free(), inlining, ...) is what users get
+     LIBFLAGS="-O2 $COMMON -DNDEBUG"
+     HFLAGS="-O1 -g -fno-omit-frame-pointer"
      LDFLAGS="" ;;
   C) CC=clang; CXX=clang++; BT=Debug
      LIBFLAGS="-O0 $COMMON -fprofile-instr-generate -fcoverage-mapping"
